@@ -344,10 +344,6 @@ func (r *runtime) InstantiateModule(
 		return nil, err
 	}
 
-	if closeNotifier, ok := ctx.Value(expctxkeys.CloseNotifierKey{}).(experimentalapi.CloseNotifier); ok {
-		mod.(*wasm.ModuleInstance).CloseNotifier = closeNotifier
-	}
-
 	// Attach the code closer so that anything afterward closes the compiled
 	// code when closing the module.
 	if code.closeWithModule {
